@@ -1,9 +1,7 @@
 ---------------------------- MODULE MCConcertina ----------------------------
-(* Model: the abstract scheduler over the configurations in $C14_CONFIGS.  *)
-EXTENDS Concertina, ConcertinaLoad, TLC
+(* Model: the abstract scheduler over the configurations in $C14_INPUT.    *)
+EXTENDS Concertina, TLC
 
-Loaded == [k \in DOMAIN RawConfigs |-> Derive(NormCfg(RawConfigs[k]))]
-ASSUME \A k \in DOMAIN Loaded : WellFormedCfg(Loaded[k])
-Count == PrintT(<<"CONFIGS", Len(Loaded)>>)
-ASSUME Count
+ASSUME \A k \in DOMAIN ConfigSeq : WellFormedCfg(ConfigSeq[k])
+ASSUME PrintT(<<"CONFIGS", Len(ConfigSeq)>>)
 =============================================================================
